@@ -303,6 +303,10 @@ class Check:
                 violations.append(f)
         for f, k in known_hits:
             print(f"KNOWN-FINDING: property={self.prop} {k['what']} [{f.obligation}]")
+        # obligations that fail as a recorded known finding are reported separately and are not
+        # part of the discharged/obligations count of the proof-level record
+        known_obls = {f.obligation for f, _ in known_hits if f.kind != "bounded"}
+        n_obl -= len(known_obls & (set(names) | {n for n, _, _ in self.static_obs}))
         rc = 0
         level = getattr(self, "level_override", None) or "proof"
         os.makedirs(os.path.join(REPLAY_DIR, self.prop), exist_ok=True)
@@ -358,6 +362,7 @@ class Check:
             "inlined": sorted(self.inlined),
             "undecided": [n for n, _ in self.undecided],
             "known_findings_hit": [k["what"] for _, k in known_hits],
+            "known_finding_obligations_excluded_from_the_count": sorted({f.obligation for f, _ in known_hits}),
             "bounded": self.bounded,
             "samples": samples or [{"note": "no obligations"}],
         }
